@@ -45,8 +45,11 @@ func (f *File) SetMapping(codec *charcode.Codec, data map[charcode.Code]cid.CID)
 	for code, cid := range data {
 		buf = codec.AppendCode(buf[:0], code)
 		if f.Parent != nil {
-			parentCID := f.Parent.LookupCID(buf)
-			if parentCID == cid {
+			// Only a mapping in a parent makes the entry redundant.  A
+			// parent's notdef answer does not: this file's own notdef
+			// entries take precedence over it.
+			parentCID, ok := f.Parent.lookupMapped(buf)
+			if ok && parentCID == cid {
 				continue
 			}
 		}
